@@ -67,6 +67,20 @@ theorem C05_send_then_recv (p : Bytes) (h0 : 0 < p.length) (h : p.length < 16777
   apply C05_any_chunking [p] (by intro f hf; simp at hf; subst hf; exact ⟨h0, h⟩) cs
   simp [stream, frame, hcs]
 
+/-- A frame whose handling closes the connection (re-entrantly, while the layer is still inside its loop) is the last frame handed up
+    from that connection, and whatever the old connection had left behind is gone: the next connection's frames — any frames, any
+    chunking — are handed up exactly. -/
+theorem C05_after_closing_frame (closes : Bytes → Bool) (buf chunk : Bytes) (h : (recvC closes buf chunk).2.2 = true)
+    (fs : List Bytes) (hfs : FramesOK fs) (cs : List Bytes) (hcs : cs.flatten = stream fs) :
+    run { enabled := true, buf := (recvC closes buf chunk).1 } cs = ({ enabled := true, buf := [] }, fs) := by
+  have hb : (recvC closes buf chunk).1 = [] := by
+    unfold recvC at h ⊢
+    by_cases hr : (peelF closes (buf ++ chunk)).2.2 = true
+    · simp [hr]
+    · simp [hr] at h
+  rw [hb]
+  exact C05_any_chunking fs hfs cs hcs
+
 /-- With segmentation switched off the layer is the identity in both directions. -/
 theorem C05_disabled_passthrough (buf c : Bytes) :
     recv { enabled := false, buf := buf } c = ({ enabled := false, buf := buf }, [c]) := by
